@@ -12,7 +12,10 @@ Reading (how the words of the property are taken; the oracle below implements ex
 * "the note array": one row (onset_div, duration_div incl. ties, midi pitch, voice, id) per note without tie_prev,
   compared as a sorted multiset before/after each normalisation.
 * "every tie chain is contiguous, of one pitch, voice and staff": for every tie link in either direction
-  (n.tie_next, n.tie_prev) the two notes are adjacent in time and agree in step/alter/octave, voice and staff.
+  (n.tie_next, n.tie_prev) the two notes are adjacent in time and agree in SOUNDING pitch (midi_pitch: alter None
+  and 0 both mean unaltered, G#4 and Ab4 are one pitch), voice and staff.  A link that was ENTERED between notes of
+  different voice or staff cannot be made 'of one voice and staff' without untying it (which would change what
+  sounds): such a link is judged for contiguity and pitch only; every link the library creates is judged in full.
 * "every symbolic duration the library assigns": every non-empty `symbolic_duration` of a note or rest of the part
   after the call (the generator never presets one); `{}` = no value assigned.  It is evaluated with the quarter
   duration in force at the note's start (`note.start.quarter`), tolerance 1e-9 relative for the binary64 product.
@@ -25,8 +28,14 @@ Reading (how the words of the property are taken; the oracle below implements ex
   each voice within each measure) is not part of the property's statement: it is proved for the model
   (rests_fill_gaps) and compared, not judged by the oracle.
 * the estimator "reports that no single notated value exists" by returning an empty dict.
-* sanitising: the generated parts contain only well-formed structures (contiguous ties, grace notes with a main
-  note); removal of malformed ones is the documented purpose of sanitize_part and is not judged.
+* sanitising: in the pipeline of kind "part" the structures are well formed (contiguous ties, grace notes with a main
+  note) and the note array must not change.  Removal of INCOMPLETE structures is the documented purpose of
+  sanitize_part; on the parts of kind "sanit", which contain such structures, the oracle judges exactly that purpose:
+  a grace note that has a main note, a tuplet / slur with both notes and a tie chain whose extent equals its summed
+  duration up to the tolerance (default 0, "ideally") are kept; a grace note is never kept without a main note, an
+  incomplete tuplet / slur and a chain beyond the tolerance never stay; when no chain is beyond the tolerance the note
+  array may only lose the rows of grace notes that had no main note.  WHICH note adopts an orphan grace note is not
+  part of the property (compared with the model only).
 """
 import json
 import math
@@ -39,8 +48,10 @@ from core import Eval
 PROPERTY = "C11"
 DRIVER = "drv_c11"
 PROPS = ["PartituraModel.Props.C11", "PartituraModel.Props.C11Rests", "PartituraModel.Props.C11Bar", "PartituraModel.Props.C11Rows",
-         "PartituraModel.Props.C11Tuplets"]
+         "PartituraModel.Props.C11Tuplets", "PartituraModel.Props.C11Sound"]
 TRUSTED = [
+    "Part.remove takes an object off the timeline and touches no reference other objects hold to it; iter_all(cls, start=t, "
+    "end=t+1) yields the objects starting at t in insertion order (sanitize_part's search for a main note)",
     "np.searchsorted(side='left') on the sorted duration tables = number of entries < value",
     "binary64 evaluation of dur/div, eps/div and n*straight/qdur: for integer dur, div every comparison of the "
     "estimator is separated from its threshold by >= 1/(1024 div), so exact rationals decide identically "
@@ -65,9 +76,12 @@ PARTIAL = [
     "beat_type of divisions per beat (decidable from the part; the evidence counts the generated parts that satisfy it). "
     "Parts outside it (a beat that is not a whole number of divisions, a quarter-duration change inside a stretch) are only "
     "compared; TsOK / ExistingOK (the Reading's preconditions) are hypotheses throughout",
-    "tie_rows_same / tie_notes_sound_same speak about the rows as key, onset, pitch, voice, id plus the recursion Walk of "
-    "duration_tied/end_tied, under distinct keys and ties that point at notes with a back link; the executable fuel-bounded "
-    "`sounding` of the model is not related to Walk by a theorem (it is what the driver prints and the harness compares)",
+    "tie_notes_note_array_same / normalise_note_array_same (the LIST `sounding` of the model, which the driver prints and the "
+    "harness compares with duration_tied / midi_pitch of the real notes, is identical before and after tie_notes, "
+    "find_tuplets and sanitize_part) hold for note lists with distinct keys whose ties point at notes with a back link "
+    "and whose chains end (Walkable: duration_tied terminates; Python does not return on a cyclic chain) - validity of the "
+    "input, not side conditions on the code; the pitch column is the spelling token, evaluated to the MIDI number by "
+    "midiOfToken (compared on every generated spelling, alter None/0 and enharmonic respellings included)",
     "tie_notes stage 2 (find_tie_split + split_note) and find_tuplets are unreachable in the current code because "
     "estimate_symbolic_duration returns {} instead of None (theorems stage2_dead, tuplet_candidates_empty, tuplets_dead). "
     "Decision of round 2: not repaired - no input violates the property as the code stands, and the one-line repair "
@@ -84,8 +98,16 @@ PARTIAL = [
     "before the first / after the last object of a (voice, staff) by design, so there is no gap theorem for it; the later "
     "members of a composite rest are evaluated with the divisions at the start of the stretch, which are the divisions in "
     "force at their own start only if no quarter-duration change lies inside the stretch",
-    "sanitize_part: only the tie check is modelled (sanitize_sound_same: a no-op on lists whose tie links join adjacent "
-    "notes) and compared; removal of incomplete slurs/tuplets/grace notes is outside the generated domain",
+    "sanitize_part is modelled in full (Model/Sanitize.lean: grace notes adopted by the last note of their voice or removed, "
+    "incomplete tuplets / slurs removed, tie check) and compared on generated INCOMPLETE structures; proved: identity on "
+    "complete structures (sanitize_complete_noop), no plain note ever removed / moved / altered (sanitize_keeps_notes), the "
+    "tie check cannot see spellings, voices, staves or ids (sanitize_reads_sound_not_spelling), it is discharged for the "
+    "output of tie_notes (tie_then_sanitize, from tie_notes_links_kept). NOT proved: that a grace note which has a main "
+    "note is never removed and that every grace note kept has one (oracle clauses complete-removed / incomplete-kept and "
+    "the correspondence only); a removed grace note leaves the note array by the function's documented purpose",
+    "Gen/C11Consts.lean: tupletFirstNormal is the observed first guess (a search starting at 1 instead of 2 is not "
+    "observable); tieNotesMaxSplits and addMeasuresSnap are read from the syntax tree (literal or constant expression, "
+    "possibly through a local) - another way of writing them stops consts_extracted from building",
 ]
 RULE = ("(a) estimator: every div 1..960 x every integer dur 1..8 div (thorough) or a stratified sample of ~210 durs "
         "per div containing all exact table/composite hits and their +-1 neighbours (quick), plus singles with "
@@ -96,12 +118,19 @@ RULE = ("(a) estimator: every div 1..960 x every integer dur 1..8 div (thorough)
         "multi-bar, across signature changes), chords, ties, slurs, rests, grace notes, odd ids, voices on one staff or "
         "wandering between three staves; fill_rests measure-wise (70 %) or global; (d) find_tuplets on runs of 1-12 "
         "equal-duration adjacent notes (triplet, quintuplet, septuplet, composite and odd durations, chords, gaps) of a "
-        "Note subclass without estimated symbolic duration. distinct = distinct "
+        "Note subclass without estimated symbolic duration; (e) tie chains whose members SOUND alike but are written "
+        "differently (alter None / 0, enharmonic respelling, other voice, other staff, id None at the head or inside; half of "
+        "all entered ties); (f) sanitize_part on parts with incomplete structures: grace notes and grace sequences without "
+        "main note (with / without a note of their voice starting with them), tuplets and slurs lacking a note, ties between "
+        "non-adjacent notes (gaps, overlaps, backwards), tie_tolerance default / 0 / 1 / 2 / 5. distinct = distinct "
         "request text; non-trivial = estimator returned a value / a note was split / a measure was added / a tuplet was found")
 LEVEL_TEXT = ("Lean 4 theorems (all durations and divisions, all measure layouts and split lists, whole regenerated "
               "tables by kernel decision) about executable models of the estimator, the split search, add_measures (also over "
-              "C02's concrete beat maps), tie_notes, find_tuplets and fill_rests; the models are tied to the code by an exhaustive differential sweep of the "
-              "estimator over div 1..960 and a differential run over generated parts.")
+              "C02's concrete beat maps), tie_notes, find_tuplets, fill_rests and sanitize_part, up to the end-to-end statement "
+              "that the executable note array of the model is the same list before and after tie_notes / find_tuplets / "
+              "sanitize_part (normalise_note_array_same); the literal constants of the source are regenerated into the model "
+              "on every run; the models are tied to the code by an exhaustive differential sweep of the "
+              "estimator over div 1..960 and a differential run over generated parts (note arrays compared row by row).")
 
 STEPS = "CDEFGAB"
 DIVS = [1, 2, 3, 4, 5, 6, 7, 8, 10, 12, 16, 24, 48, 96, 480, 960]
@@ -184,12 +213,12 @@ def cases(rng, tier):
         # keep the breadth-first search small: at most ~60 grid points per level
         if length // unit > 60:
             length = 60 * unit + rng.randint(0, unit)
-        yield {"k": "split", "start": start, "end": start + length, "div": div, "max": rng.choice([3, 3, 3, 2, 1, 0])}
+        yield {"k": "split", "start": start, "end": start + length, "div": div, "max": rng.choice([3, 3, 3, 2, 1, 0, None, None])}
     for _ in range(400 if thorough else 40):
         # deep searches: more than 30 quarters need two or three splits (or have no solution)
         div = rng.choice([1, 1, 2, 3])
         start = rng.choice([0, 0, 1, 2, 3, 4]) * (div if rng.random() < 0.7 else 1)
-        yield {"k": "split", "start": start, "end": start + rng.randint(31, 44) * div + rng.choice([0, 0, 0, 1]), "div": div, "max": rng.choice([3, 3, 2])}
+        yield {"k": "split", "start": start, "end": start + rng.randint(31, 44) * div + rng.choice([0, 0, 0, 1]), "div": div, "max": rng.choice([3, 3, 2, None])}
     for _ in range(600 if thorough else 80):
         a = rng.randint(0, 200)
         yield {"k": "osplits", "start": a, "end": a + rng.randint(0, 120), "unit": rng.choice([1, 1, 2, 3, 4, 5, 7, 15, 16])}
@@ -208,6 +237,8 @@ def cases(rng, tier):
         yield d
     for i in range(1200 if thorough else 50):
         yield gen_tuplet_part(rng)
+    for i in range(2000 if thorough else 110):
+        yield gen_sanit(rng)
     # (a) estimator
     if thorough:
         for div in range(1, 961):
@@ -223,6 +254,22 @@ def cases(rng, tier):
         div = rng.choice([rng.randint(1, 960), rng.randint(961, 100000), rng.choice([1024, 4096, 10080, 65536])])
         dur = rng.choice([rng.randint(0, 8 * div), rng.randint(0, 40 * div)])
         yield {"k": "estl", "div": div, "com": rng.random() < 0.5, "durs": [dur]}
+
+
+STEP_PC = {"C": 0, "D": 2, "E": 4, "F": 5, "G": 7, "A": 9, "B": 11}
+
+
+def midi_of(step, alter, octv):
+    """what a spelling sounds like (MIDI number), written from the definition of scientific pitch notation"""
+    return 12 * (octv + 1) + STEP_PC[step] + (alter or 0)
+
+
+def respell(rng, step, alter, octv):
+    """a different (step, alter, octave) with the same sounding pitch (G#4 / Ab4, B#3 / C4, Cb4 / B3, C##4 / D4 ...)"""
+    m = midi_of(step, alter, octv)
+    cands = [(s2, a2, o2) for s2 in STEPS for a2 in (-2, -1, 0, None, 1, 2) for o2 in (octv - 1, octv, octv + 1)
+             if midi_of(s2, a2, o2) == m and (s2, a2 or 0, o2) != (step, alter or 0, octv)]
+    return rng.choice(cands) if cands else (step, alter, octv)
 
 
 def gen_part(rng):
@@ -327,17 +374,42 @@ def gen_part(rng):
                     notes.append({"id": "g%d" % nid, "t": pos, "dur": 0, "kind": "grace", "step": rng.choice(STEPS),
                                   "alter": rng.choice([-1, 0, 0, 1]), "oct": rng.randint(2, 6), "voice": v, "staff": staff})
                     nid += 1
+                    gref = notes[-1]
+                else:
+                    gref = None
                 nch = 1 + (rng.random() < 0.2)
                 for c in range(nch):
+                    nv, nst, tv = v, staff, None
                     if prev is not None and c == 0:
                         step, alter, octv = prev["step"], prev["alter"], prev["oct"]
+                        nv, nst = prev["voice"], prev["staff"]
+                        # the continuation SOUNDS like its predecessor; how it is written may differ (round 5)
+                        if rng.random() < 0.5:
+                            tv = rng.choice(["alt0", "alt0", "enh", "enh", "voice", "staff", "idnone", "headnone"])
+                            if tv == "alt0":      # None and 0 both mean 'unaltered'
+                                if alter in (None, 0):
+                                    alter = 0 if alter is None else None
+                                else:
+                                    tv = "enh"
+                            if tv == "enh":       # another spelling of the same sounding pitch
+                                step, alter, octv = respell(rng, step, alter, octv)
+                            elif tv == "voice":
+                                nv = prev["voice"] + 2
+                            elif tv == "staff":
+                                nst = prev["staff"] + rng.choice([1, 1, -1]) if prev["staff"] > 1 else prev["staff"] + 1
+                            elif tv == "headnone":
+                                prev["id"] = None
                     else:
                         step, alter, octv = rng.choice(STEPS), rng.choice([-1, 0, 0, 0, 1, None]), rng.randint(2, 6)
                     ident = "n%d" % nid
-                    if rng.random() < 0.08:
-                        ident = rng.choice(["n%da" % nid, "n%d-1" % nid, "n%da-1" % nid, "x%dz" % nid, None])
+                    if rng.random() < 0.08 or tv == "idnone":
+                        ident = None if tv == "idnone" else rng.choice(["n%da" % nid, "n%d-1" % nid, "n%da-1" % nid, "x%dz" % nid, None])
                     n = {"id": ident, "key": nid, "t": pos, "dur": dur, "kind": "note", "step": step, "alter": alter, "oct": octv,
-                         "voice": v, "staff": staff}
+                         "voice": nv, "staff": nst}
+                    if tv:
+                        n["tv"] = tv
+                    if c == 0 and gref is not None:   # the grace note belongs to this note: same voice and staff
+                        gref["voice"], gref["staff"] = nv, nst
                     nid += 1
                     if prev is not None and c == 0:
                         prev["tie"] = n["key"]
@@ -392,7 +464,7 @@ def gen_tuplet_part(rng):
 
 
 # ---------------------------------------------------------------------------------------------- building / observing parts
-def build(d, note_cls=None):
+def build(d, note_cls=None, keys=None):
     import partitura.score as S
 
     p = S.Part("P0", part_name="P0", quarter_duration=d["divs"])
@@ -436,6 +508,8 @@ def build(d, note_cls=None):
         p.add(S.Barline("light-heavy"), d["end"])
     for n in d.get("notes", []):
         n.pop("_o", None)
+    if keys is not None:
+        keys.update(bykey)
     return p, slurs
 
 
@@ -505,6 +579,13 @@ def notes_obs(ns, slur_index):
     return W.f_list(one, ns)
 
 
+def snd_obs(ns):
+    """rows (onset, duration_tied, midi_pitch, voice, id) of the notes without tie_prev, in iteration order"""
+    return W.f_list(lambda n: W.f_tuple(W.f_int(n.start.t), W.f_int(n.duration_tied), W.f_opt(W.f_int, n.midi_pitch),
+                                        W.f_opt(W.f_int, n.voice), "-" if n.id is None else str(n.id)),
+                    [n for n in ns if n.tie_prev is None])
+
+
 # ---------------------------------------------------------------------------------------------- oracle helpers
 def numeric_exact(sd):
     """exact value in quarters of a symbolic duration, from the label table (None if the label is unknown)"""
@@ -547,11 +628,28 @@ def check_symbolic(part, stage, out, limit=3, exempt=()):
                 stage, type(n).__name__, n.id, n.start.t, n.end.t, q, sd, e or num, dur))
 
 
-def check_chains(part, stage, out):
+def inherited_links(part):
+    """ids of the notes whose tie_prev link, AS ENTERED, joins two notes of different voice or staff: such a link can only
+    be 'of one voice and staff' after untying it, which would change what sounds - it is not judged for voice/staff
+    (the pieces the library creates copy voice and staff, so the link stays between a copy of the one and the other)"""
+    import partitura.score as S
+
+    out = set()
+    for n in part.iter_all(S.Note, include_subclasses=True):
+        nx = n.tie_next
+        if nx is not None and (n.voice, n.staff) != (nx.voice, nx.staff):
+            out.add(id(nx))
+    return out
+
+
+def check_chains(part, stage, out, inherited=()):
     import partitura.score as S
 
     def same(a, b):
-        return (a.step, a.alter, a.octave, a.voice, a.staff) == (b.step, b.alter, b.octave, b.voice, b.staff)
+        """a (earlier) tied to b: one SOUNDING pitch (alter None = 0, enharmonic spellings), one voice and staff"""
+        if a.midi_pitch != b.midi_pitch:
+            return False
+        return id(b) in inherited or (a.voice, a.staff) == (b.voice, b.staff)
 
     for n in part.iter_all(S.Note, include_subclasses=True):
         nx, pv = n.tie_next, n.tie_prev
@@ -559,7 +657,7 @@ def check_chains(part, stage, out):
             out.append("%s/chain: %s [%s,%s) is tied to %s [%s,%s): not contiguous or not the same pitch/voice/staff" % (
                 stage, n.id, n.start.t, n.end.t, nx.id, getattr(nx.start, "t", None), getattr(nx.end, "t", None)))
             return
-        if pv is not None and (pv.end is None or pv.end.t != n.start.t or not same(n, pv)):
+        if pv is not None and (pv.end is None or pv.end.t != n.start.t or not same(pv, n)):
             out.append("%s/chain: %s [%s,%s) has tie_prev %s [%s,%s): not contiguous or not the same pitch/voice/staff" % (
                 stage, n.id, n.start.t, n.end.t, pv.id, getattr(pv.start, "t", None), getattr(pv.end, "t", None)))
             return
@@ -756,8 +854,15 @@ def eval_split(d, ev):
     import partitura.utils.music as M
 
     s, e, div, mx = d["start"], d["end"], d["div"], d["max"]
-    r, exc = call(M.find_tie_split, s, e, div, mx)
-    ev.requests.append("split %d %d %d %d" % (s, e, div, mx))
+    if mx is None:   # the default of the signature: the model takes it from Gen/C11Consts.lean
+        import inspect
+
+        r, exc = call(M.find_tie_split, s, e, div)
+        ev.requests.append("splitd %d %d %d" % (s, e, div))
+        mx = inspect.signature(M.find_tie_split).parameters["max_splits"].default
+    else:
+        r, exc = call(M.find_tie_split, s, e, div, mx)
+        ev.requests.append("split %d %d %d %d" % (s, e, div, mx))
     if exc is not None:
         ev.impl.append("err")
         ev.oracle.append("split/raises: find_tie_split%r raised %r" % ((s, e, div, mx), exc))
@@ -811,7 +916,17 @@ def eval_part(d, ev):
     nontrivial = False
     first, last = part.first_point.t, part.last_point.t
     snd0 = sounding(part)
-    info = {}
+    inherited = inherited_links(part)
+    info = {"tie_variants": [n["tv"] for n in d["notes"] if n.get("tv")],
+            "tie_links": sum(1 for n in d["notes"] if n.get("tie") is not None)}
+
+    # ---- the rows of the note array as the model computes them from the note list (plain notes)
+    def snd_stream():
+        nreq, ns = notes_req(part, slur_index)
+        ev.requests.append("snd " + nreq)
+        ev.impl.append(snd_obs(ns))
+
+    snd_stream()
 
     # ---- add_measures
     before = [(m.start.t, m.end.t, m.number) for m in part.iter_all(S.Measure)]
@@ -850,11 +965,12 @@ def eval_part(d, ev):
         snd = sounding(part)
         if snd != snd0:
             ev.oracle.append("%s/note-array: changed from %s to %s" % (stage, snd0, snd))
-        check_chains(part, stage, ev.oracle)
+        check_chains(part, stage, ev.oracle, inherited)
         check_symbolic(part, stage, ev.oracle, exempt=exempt)
 
     judge("tie_notes")
     check_within_measure(part, "tie_notes", ev.oracle)
+    snd_stream()
 
     # ---- find_tuplets
     from gen_score import fingerprint_part
@@ -872,7 +988,7 @@ def eval_part(d, ev):
 
     # ---- sanitize_part
     nreq, _ = notes_req(part, slur_index)
-    ev.requests.append("san 0 " + nreq)
+    ev.requests.append("sand " + nreq)   # default tie_tolerance: the model takes it from Gen/C11Consts.lean
     _, exc = call(S.sanitize_part, part)
     if exc is not None:
         ev.impl.append("err:" + type(exc).__name__)
@@ -883,6 +999,7 @@ def eval_part(d, ev):
 
     # ---- fill_rests
     eval_fill(part, d, ev, info, judge)
+    snd_stream()
     ev.info = info
     return nontrivial
 
@@ -946,6 +1063,7 @@ def eval_splitnote(d, ev):
     slur_index = {id(s): i for i, s in enumerate(slurs)}
     S.add_measures(part)
     snd0 = sounding_cls(part, cls)
+    inherited = inherited_links(part)
     ns = list(part.iter_all(cls))
     if not ns:
         return False
@@ -976,7 +1094,7 @@ def eval_splitnote(d, ev):
     snd = sounding_cls(part, cls)
     if snd != snd0:
         ev.oracle.append("split_note/note-array: changed from %s to %s" % (snd0, snd))
-    check_chains(part, "split_note", ev.oracle)
+    check_chains(part, "split_note", ev.oracle, inherited)
     if not d.get("qd"):
         # find_tie_split works with one divisions value: a note across a quarter-duration change is outside its domain
         check_symbolic(part, "split_note", ev.oracle)
@@ -1024,6 +1142,212 @@ def eval_tuplets(d, ev):
     return len(tups) > 0
 
 
+def gen_sanit(rng):
+    """a generated part plus the INCOMPLETE structures sanitize_part is there to remove: grace notes without a main note
+    (alone or in sequences, with or without a note of their voice starting where they start), tuplets and slurs without
+    start or end note, ties between notes that are not adjacent (gaps and overlaps of 1..40 divisions), next to complete
+    ones; tie_tolerance 0..5"""
+    d = gen_part(rng)
+    d["k"] = "sanit"
+    d["tol"] = rng.choice([0, 0, None, None, 1, 2, 5])   # None: sanitize_part(part), the documented default 0
+    d["pre_tie"] = rng.random() < 0.3
+    plain = [n for n in d["notes"] if n["kind"] == "note"]
+    tied_to = set(n["tie"] for n in plain if n.get("tie") is not None)
+    # ties between notes that are not adjacent
+    xt = []
+    if plain and not d["pre_tie"]:
+        for _ in range(rng.choice([0, 1, 1, 2, 3])):
+            free_a = [n for n in plain if n.get("tie") is None and n["key"] not in [x[0] for x in xt]]
+            free_b = [n for n in plain if n.get("tie") is None and n["key"] not in tied_to and n["key"] not in [y for x in xt for y in x]]
+            if not free_a or not free_b:
+                break
+            a = rng.choice(free_a)
+            near = [b for b in free_b if b is not a and abs(b["t"] - (a["t"] + a["dur"])) <= max(5, (d["tol"] or 0) + 2)]
+            b = rng.choice(near) if near and rng.random() < 0.6 else rng.choice(free_b)
+            if b is a or b["key"] in [x[0] for x in xt] and a["key"] in [x[1] for x in xt]:
+                continue
+            xt.append([a["key"], b["key"]])
+            tied_to.add(b["key"])
+    d["xties"] = xt
+    # grace-note sequences
+    xg = []
+    times = sorted(set(n["t"] for n in plain)) or [0]
+    for _ in range(rng.choice([0, 1, 2, 2, 3])):
+        t = rng.choice(times) if rng.random() < 0.8 else rng.randint(0, max(1, d["end"]))
+        at = [n for n in plain if n["t"] == t]
+        nseq = rng.choice([1, 1, 2, 3])
+        voices = []
+        for i in range(nseq):
+            r = rng.random()
+            voices.append(rng.choice(at)["voice"] if at and r < 0.6 else (None if r < 0.7 else rng.randint(1, 4)))
+        xg.append({"t": t, "voices": voices, "main": rng.choice(at)["key"] if at and rng.random() < 0.35 else None,
+                   "linked": rng.random() < 0.85})
+    d["xgraces"] = xg
+    # tuplets and slurs
+    def span():
+        if len(plain) < 2:
+            return None
+        a, b = sorted(rng.sample(range(len(plain)), 2))
+        r = rng.random()
+        return [plain[a]["key"] if r < 0.75 else None, plain[b]["key"] if not 0.6 < r < 0.9 else None, plain[a]["t"], plain[b]["t"] + plain[b]["dur"]]
+    d["tuplets"] = [x for x in (span() for _ in range(rng.choice([0, 1, 2, 3]))) if x]
+    d["xslurs"] = [x for x in (span() for _ in range(rng.choice([0, 1, 2]))) if x]
+    return d
+
+
+def eval_sanit(d, ev):
+    """the whole of sanitize_part against the model, and the oracle: only INCOMPLETE structures go"""
+    import partitura.score as S
+
+    d = json.loads(json.dumps(d))
+    objs = {}
+    part, slurs = build(d, keys=objs)
+    if part.first_point is None:
+        return False
+    _, exc = call(S.add_measures, part)
+    if exc is not None:
+        return False
+    if d.get("pre_tie"):
+        _, exc = call(S.tie_notes, part)
+        if exc is not None:
+            return False
+    for a, b in d.get("xties", []):
+        if a in objs and b in objs and objs[a].tie_next is None and objs[b].tie_prev is None and objs[b].tie_next is None and a != b:
+            objs[a].tie_next = objs[b]
+            objs[b].tie_prev = objs[a]
+    nx = 0
+    for g in d.get("xgraces", []):
+        seq = []
+        for v in g["voices"]:
+            o = S.GraceNote("grace", step="C", octave=4, id="x%d" % nx, voice=v, staff=1)
+            nx += 1
+            part.add(o, g["t"], g["t"])
+            seq.append(o)
+        if g.get("linked", True):
+            for a, b in zip(seq, seq[1:]):
+                a.grace_next = b
+                b.grace_prev = a
+        if g.get("main") is not None and g["main"] in objs:
+            seq[-1].grace_next = objs[g["main"]]
+    for a, b, ta, tb in d.get("tuplets", []):
+        o = S.Tuplet(objs.get(a) if a is not None else None, objs.get(b) if b is not None else None, 3, 2)
+        part.add(o, ta, tb)
+    extra_slurs = []
+    for a, b, ta, tb in d.get("xslurs", []):
+        o = S.Slur(objs.get(a) if a is not None else None, objs.get(b) if b is not None else None)
+        part.add(o, ta, tb)
+        extra_slurs.append(o)
+    dflt = d.get("tol") is None
+    tol = 0 if dflt else int(d["tol"])   # ("tie_tolerance ... Ideally, it is 0": the documented default)
+    slur_index = {id(x): i for i, x in enumerate(slurs)}
+    nreq, ns = notes_req(part, slur_index)
+    nkey = {id(n): i for i, n in enumerate(ns)}
+    graces = list(part.iter_all(S.GraceNote))
+    gkey = {id(g): i for i, g in enumerate(graces)}
+    tups = list(part.iter_all(S.Tuplet))
+    sls = list(part.iter_all(S.Slur))
+
+    def gnext(g):
+        x = g.grace_next
+        if x is None:
+            return "N", "-"
+        if isinstance(x, S.GraceNote):
+            return "G %d" % gkey[id(x)], "g%d" % gkey[id(x)]
+        return "M %d" % nkey[id(x)], "n%d" % nkey[id(x)]
+
+    def main_of(g):   # (independent of GraceNote.main_note)
+        seen = 0
+        x = g.grace_next
+        while isinstance(x, S.GraceNote) and seen < 1000:
+            x = x.grace_next
+            seen += 1
+        return x
+
+    greq = W.lst(lambda g: "%d %d %s %s" % (gkey[id(g)], g.start.t, W.opt(W.i, g.voice), gnext(g)[0]), graces)
+    sreq = lambda l: W.lst(lambda x: "%d %s %s" % (x[0], W.b(x[1].start_note is not None), W.b(x[1].end_note is not None)), list(enumerate(l)))
+    ev.requests.append("sanp %s %s %s %s %s" % ("-" if dflt else "%d" % tol, nreq, greq, sreq(tups), sreq(sls)))
+    # ---- what the oracle needs from the state before
+    had_main = [g for g in graces if main_of(g) is not None]
+    complete_t = [t for t in tups if t.start_note is not None and t.end_note is not None]
+    complete_s = [x for x in sls if x.start_note is not None and x.end_note is not None]
+    chains = []
+    for n in ns:
+        if n.tie_prev is None and n.tie_next is not None:
+            mem, x, tot = [n], n, n.end.t - n.start.t
+            while x.tie_next is not None and len(mem) < 1000:
+                x = x.tie_next
+                mem.append(x)
+                tot += x.end.t - x.start.t
+            chains.append((mem, abs((mem[-1].end.t - n.start.t) - tot)))
+    rows0 = sounding(part)
+    orphan_rows = [(int(g.start.t), int(g.duration_tied), int(g.midi_pitch), g.voice, g.id) for g in graces if main_of(g) is None]
+    _, exc = call(S.sanitize_part, part) if dflt else call(S.sanitize_part, part, tol)
+    if exc is not None:
+        ev.impl.append("err:" + type(exc).__name__)
+        ev.oracle.append("sanitize_part/raises: %r" % (exc,))
+        return False
+    kept_g = list(part.iter_all(S.GraceNote))
+    kept_ids = set(id(g) for g in kept_g)
+    ns1 = list(part.iter_all(S.Note))
+    ev.impl.append(W.f_tuple(
+        W.f_list(lambda n: W.f_tuple(ref(n), ref(n.tie_prev), ref(n.tie_next)), ns1),
+        W.f_list(lambda g: W.f_tuple(W.f_int(gkey[id(g)]), gnext(g)[1]), kept_g),
+        W.f_list(W.f_int, [gkey[id(g)] for g in graces if id(g) not in kept_ids]),
+        W.f_list(W.f_int, [i for i, t in enumerate(tups) if any(t is y for y in part.iter_all(S.Tuplet))]),
+        W.f_list(W.f_int, [i for i, t in enumerate(sls) if any(t is y for y in part.iter_all(S.Slur))]),
+        snd_obs(ns1)))
+    # ---- oracle: sanitising removes INCOMPLETE structures only, and what it keeps sounds as before
+    for g in had_main:
+        if id(g) not in kept_ids:
+            ev.oracle.append("sanitize_part/complete-removed: grace note %s at %s had main note %s and was removed" % (g.id, g.start and g.start.t, main_of(g).id))
+            break
+    for g in kept_g:
+        if main_of(g) is None:
+            ev.oracle.append("sanitize_part/incomplete-kept: grace note %s is kept without a main note" % (g.id,))
+            break
+    left_t = set(id(t) for t in part.iter_all(S.Tuplet))
+    left_s = set(id(t) for t in part.iter_all(S.Slur))
+    if any(id(t) not in left_t for t in complete_t) or any(id(t) not in left_s for t in complete_s):
+        ev.oracle.append("sanitize_part/complete-removed: a tuplet or slur with both end notes was removed")
+    if any(id(t) in left_t for t in tups if t not in complete_t) or any(id(t) in left_s for t in sls if t not in complete_s):
+        ev.oracle.append("sanitize_part/incomplete-kept: a tuplet or slur without start or end note is still in the part")
+    for mem, dev in chains:
+        linked = all(a.tie_next is b and b.tie_prev is a for a, b in zip(mem, mem[1:]))
+        if dev <= tol and not linked:
+            ev.oracle.append("sanitize_part/untied: the chain %s (extent - summed duration = %s <= tolerance %s) was untied" % (
+                [(m.id, m.start.t, m.end.t) for m in mem], dev, tol))
+            break
+        if dev > tol and any(m.tie_next is not None or m.tie_prev is not None for m in mem):
+            ev.oracle.append("sanitize_part/wrong-tie-kept: the chain %s (extent - summed duration = %s > tolerance %s) is still tied" % (
+                [(m.id, m.start.t, m.end.t) for m in mem], dev, tol))
+            break
+    if all(dev <= tol for _, dev in chains):
+        rows1 = sounding(part)
+        lost = list(rows0)
+        extra = []
+        for r in rows1:
+            if r in lost:
+                lost.remove(r)
+            else:
+                extra.append(r)
+        spare = list(orphan_rows)
+        unexplained = []
+        for r in lost:
+            if r in spare:
+                spare.remove(r)
+            else:
+                unexplained.append(r)
+        if extra or unexplained:
+            ev.oracle.append("sanitize_part/note-array: rows %s appeared, rows %s disappeared (only grace notes without main note may go)" % (extra, unexplained))
+    ev.info = {"sanit": {"graces": len(graces), "graces_removed": len(graces) - len(kept_g),
+                         "graces_adopted": sum(1 for g in kept_g if g not in had_main),
+                         "tuplets_removed": len(tups) - len(left_t & set(id(t) for t in tups)),
+                         "slurs_removed": len(sls) - len(left_s & set(id(t) for t in sls)),
+                         "chains": len(chains), "chains_untied": sum(1 for _, dev in chains if dev > tol),
+                         "chains_off_within_tol": sum(1 for _, dev in chains if 0 < dev <= tol)}}
+    return len(graces) - len(kept_g) + len(tups) + len(sls) + len(chains) > 0
+
+
 def sounding_cls(part, cls):
     import partitura.score as S
 
@@ -1069,6 +1393,8 @@ def evaluate(d):
         nontrivial = eval_splitnote(d, ev)
     elif k == "tuplets":
         nontrivial = eval_tuplets(d, ev)
+    elif k == "sanit":
+        nontrivial = eval_sanit(d, ev)
     ev.key = ("|".join(ev.requests)[:2000] or repr(d)) if nontrivial else None
     return ev
 
@@ -1084,7 +1410,11 @@ def shrink(d):
     if d.get("k") == "estr":
         for x in range(d["lo"], d["hi"]):
             yield {"k": "estl", "div": d["div"], "com": False, "durs": [x]}
-    if d.get("k") in ("part", "splitnote", "tuplets"):
+    if d.get("k") == "sanit":
+        for f in ("xties", "xgraces", "tuplets", "xslurs"):
+            for i in range(len(d.get(f, []))):
+                yield dict(d, **{f: d[f][:i] + d[f][i + 1:]})
+    if d.get("k") in ("part", "splitnote", "tuplets", "sanit"):
         ns = d["notes"]
         for i in range(len(ns)):
             key = ns[i].get("key")
@@ -1127,4 +1457,8 @@ def distribution(descs, results):
         "tuplet_labels_not_lasting_their_note": sum((r.get("info") or {}).get("tuplet_labels_wrong", 0) for r in results),
         "fill_mode": dict(Counter(str((r.get("info") or {}).get("fill_mode")) for _, r in parts)),
         "rests_with_non_integral_time": sum((r.get("info") or {}).get("composite_rests", 0) for _, r in parts),
+        "tie_links_entered": sum((r.get("info") or {}).get("tie_links", 0) for _, r in parts),
+        "tie_links_by_representation_variant": dict(Counter(t for _, r in parts for t in (r.get("info") or {}).get("tie_variants", []))),
+        "sanitize_shapes": dict(sum((Counter((r.get("info") or {}).get("sanit") or {}) for r in results), Counter())),
+        "sanitize_by_tolerance": dict(Counter(str(d.get("tol")) for d in descs if d["k"] == "sanit")),
     }
